@@ -118,7 +118,9 @@ theorem finish_ok {dtype : Option DT} {elem : DT} {rows r' : List (List Rat)} {w
   split at h
   · split at h
     · simp only [Except.ok.injEq, Prod.mk.injEq] at h; exact ⟨h.1.symm, h.2.1.symm⟩
-    · cases h
+    · split at h
+      · simp only [Except.ok.injEq, Prod.mk.injEq] at h; exact ⟨h.1.symm, h.2.1.symm⟩
+      · cases h
   · simp only [Except.ok.injEq, Prod.mk.injEq] at h; exact ⟨h.1.symm, h.2.1.symm⟩
 
 /-- an accepted array-like: its rows as read by `_sample_array`, all as wide as `shape[1]` -/
